@@ -100,8 +100,12 @@ def sequencing(name, c, leaves):
         leaves = ['RRG', 'MUO', 'MDG']
     elif name == 'cleanup_heavy':
         leaves = ['RRG', 'MUO', 'MDG', 'MEG']
+    # a user pass is the copy of its argument plus the library passes it implies: the reference applies
+    # those library passes one after another through their own public `transform`
+    expand = {'UPOST': ['MDG'], 'UNEST': ['MUO', 'MDG']}
     for x in leaves:
-        c = make(x).transform(c)
+        for y in expand.get(x, [x]):
+            c = make(y).transform(c)
     return c
 
 
